@@ -44,6 +44,7 @@ class Model:
         self.length = 10.0     # characteristic conductor length in m
         self.radii = []
         self.skin_sigma = []
+        self.exact = True      # pulse_counts() can be trusted
 
     def argv(self):
         return (list(self.argv_geo) + list(self.argv_env)
@@ -51,6 +52,25 @@ class Model:
 
     def min_pulses(self):
         return sum(max(g['nseg'] - 1, 0) for g in self.geo)
+
+    def pulse_counts(self, ground):
+        """Pulses per object as the program will number them: segments - 1,
+        plus one per end on the ground plane, plus one per end that meets an
+        end of an earlier-tagged object.  Falls back to the lower bound for
+        curves and when whole-structure knowledge is missing."""
+        order = sorted(self.geo, key=lambda g: g.get('etag', 0))
+        seen = []
+        for g in order:
+            c = max(g['nseg'] - 1, 0)
+            if 'p1' in g:
+                for e in (g['p1'], g['p2']):
+                    if ground and e[2] == 0:
+                        c += 1
+                    elif any(max(abs(a - b) for a, b in zip(e, q)) < 1e-9 for q in seen):
+                        c += 1
+                seen += [g['p1'], g['p2']]
+            g['npulses'] = c
+        return sum(g['npulses'] for g in self.geo)
 
 
 def gen_geometry(rng, m, ground):
@@ -79,6 +99,8 @@ def gen_geometry(rng, m, ground):
     def wire(nseg, p1, p2, rr=r):
         o, v = _wire(nseg, p1, p2, rr)
         add('wire', nseg, rr, o, v)
+        m.geo[-1]['p1'] = tuple(float(x) for x in p1)
+        m.geo[-1]['p2'] = tuple(float(x) for x in p2)
 
     if t == 'dipole':
         wire(n, (0, 0, h), (L, 0, h))
@@ -200,6 +222,11 @@ def gen_geometry(rng, m, ground):
     if t == 'tapered':
         tg = m.geo[0]['etag']
         v = '%d,%d' % (tg, rng.choice([1, 2, 3]))
+        r2 = rng.random()
+        if r2 < 0.25:
+            v += ',%s' % _g(rng.choice([0.05, 0.1, 0.2]))
+        elif r2 < 0.4:
+            v += ',%s,%s' % (_g(rng.choice([0.05, 0.1])), _g(L / m.geo[0]['nseg'] * rng.choice([2.0, 3.0])))
         a.extend(['--taper-wire', v])
     elif wires and rng.random() < 0.08 and wires[0]['nseg'] >= 6:
         a.extend(['--taper-wire', '%d,%d' % (wires[0]['etag'], rng.choice([1, 2, 3]))])
@@ -227,6 +254,7 @@ def gen_transforms(rng, m, a, ground, t):
         tag = ''
         if m.geo and rng.random() < 0.25 and not ground:
             tag = ',%d' % rng.choice(m.geo)['etag']
+            m.exact = False
         if kind == 'rotate':
             if ground:
                 v = '%s,0,0,%s' % (_g(keys[i]), _g(rng.choice([10, 45, 90, 200])))
@@ -252,7 +280,7 @@ def gen_env(rng, m, env):
     if env == 'ideal':
         a += ['--medium=0,0,0']
     elif env == 'real1':
-        a += ['--medium=%s,%s,0' % (_g(rng.choice([13, 5, 80, 3])), _g(rng.choice([0.005, 0.001, 0.03, 5.0])))]
+        a += ['--medium=%s,%s,0' % (_g(rng.choice([13, 5, 80, 3, 1])), _g(rng.choice([0.005, 0.001, 0.03, 5.0, 1e7])))]
     elif env in ('real2', 'real3'):
         k = 2 if env == 'real2' else 3
         c = rng.choice([5.0, 12.0, 30.0])
@@ -280,6 +308,8 @@ def gen_sources(rng, m):
     a = []
     k = rng.choice([1, 1, 1, 2, 3])
     npl = m.min_pulses()
+    if m.exact:
+        npl = m.pulse_counts(m.env != 'free')
     used = set()
     for i in range(k):
         if rng.random() < 0.5 or len(m.geo) == 0:
@@ -288,7 +318,7 @@ def gen_sources(rng, m):
             s = '%d' % p
         else:
             g = rng.choice(m.geo)
-            p = rng.randrange(1, max(g['nseg'] - 1, 1) + 1)
+            p = rng.randrange(1, max(g.get('npulses', g['nseg'] - 1) if m.exact else g['nseg'] - 1, 1) + 1)
             key = ('geo', p, g['etag'])
             s = '%d,%d' % (p, g['etag'])
         if key in used:
@@ -332,6 +362,8 @@ def gen_loads(rng, m, kinds):
                 a.append('--laplace-load-a=%s' % aa)
             lumped.append(kind)
     npl = m.min_pulses()
+    if m.exact:
+        npl = m.pulse_counts(m.env != 'free')
     ngeo = len(m.geo)
     for i, kind in enumerate(lumped):
         n = i + 1
@@ -341,7 +373,7 @@ def gen_loads(rng, m, kinds):
                 a.append('--attach-load=%d,%d' % (n, p))
         elif form == 'geo':
             g = rng.choice(m.geo)
-            p = rng.randrange(1, max(g['nseg'] - 1, 1) + 1)
+            p = rng.randrange(1, max(g.get('npulses', g['nseg'] - 1) if m.exact else g['nseg'] - 1, 1) + 1)
             a.append('--attach-load=%d,%d,%d' % (n, p, g['etag']))
         elif form == 'all_geo':
             k = rng.randrange(1, ngeo + 1)
@@ -420,7 +452,8 @@ def variant_model(rng, m):
     coarsely)."""
     import copy
     v = copy.deepcopy(m)
-    how = rng.choice(['scale', 'scale', 'same', 'load_value', 'voltage', 'translate', 'rotate', 'drop_loads'])
+    how = rng.choice(['scale', 'scale', 'same', 'load_value', 'voltage', 'translate', 'rotate', 'drop_loads',
+                      'taper', 'segments', 'radius'])
     ground = m.env != 'free'
     if how == 'scale':
         have = [i for i, x in enumerate(v.argv_geo) if x == '--geo-scale']
@@ -466,6 +499,26 @@ def variant_model(rng, m):
     elif how == 'drop_loads':
         v.argv_load = []
         v.skin_sigma = []
+    elif how in ('taper', 'segments', 'radius'):
+        wi = [i for i, x in enumerate(v.argv_geo) if x == '-w']
+        if wi:
+            i = wi[0] + 1
+            parts = v.argv_geo[i].split(',')
+            off = 1 if len(parts) == 9 else 0
+            if how == 'taper':
+                have = [k for k, x in enumerate(v.argv_geo) if x == '--taper-wire']
+                if have:
+                    del v.argv_geo[have[0]:have[0] + 2]
+                elif int(parts[off]) >= 6:
+                    v.argv_geo += ['--taper-wire', '%d,%d' % (v.geo[0]['etag'], rng.choice([1, 2, 3]))]
+            elif how == 'segments':
+                # more segments keep every pulse index that was valid
+                parts[off] = str(int(parts[off]) + rng.choice([1, 2]))
+                v.argv_geo[i] = ','.join(parts)
+            else:
+                # thinner wire keeps an insulation radius valid
+                parts[-1] = _g(float(parts[-1]) * rng.choice([0.5, 0.8]))
+                v.argv_geo[i] = ','.join(parts)
     v.features = list(v.features) + ['variant_' + how]
     return v
 
@@ -519,8 +572,13 @@ def gen_near(rng, m):
     L = m.length
     start = [rng.choice([1.0, -2.0, L / 2]), rng.choice([1.0, 3.0]), rng.choice([1.5, 5.0, L])]
     inc = [rng.choice([1.0, 0.5]), rng.choice([1.0, 2.0]), rng.choice([1.0, 3.0])]
-    cnt = rng.choice([[1, 1, 1], [2, 1, 1], [1, 2, 1], [1, 1, 3], [2, 2, 1], [2, 1, 2], [2, 2, 2]])
-    pwr = rng.choice([None, None, 100.0])
+    cnt = rng.choice([[1, 1, 1], [2, 1, 1], [1, 2, 1], [1, 1, 3], [2, 2, 1], [2, 1, 2], [2, 2, 2],
+                      [3, 1, 1], [1, 3, 2], [4, 2, 1], [1, 1, 5]])
+    if rng.random() < 0.2:
+        inc[rng.randrange(3)] *= -1
+    if rng.random() < 0.15:
+        start[2] = rng.choice([0.0, 0.25])
+    pwr = rng.choice([None, None, 100.0, 0.5])
     return [start, inc, cnt, pwr]
 
 
